@@ -46,7 +46,10 @@ func LumpedConstituentTransport(inflowLoads, lateralLoads, outflows, storage dat
 	for i := 0; i < nDays; i++ {
 		idx[0] = i
 		inflowLoad := inflowLoads.Get(idx)
-		lateralLoad := lateralLoads.Get(idx)
+		lateralLoad := 0.0
+		if lateralLoads != nil {
+			lateralLoad = lateralLoads.Get(idx)
+		}
 		totalLoadIn := (inflowLoad + lateralLoad + pointInput) * deltaT
 
 		outflowR := outflows.Get(idx)
